@@ -942,10 +942,10 @@ def check_normalize(ck, by, pfx):
             Zs = Z.map(lambda p: apply_sub(p, sub))
             Rs = [r.map(lambda p: apply_sub(p, sub)) for r in R]
             if Zs.is_zero():
-                ck.identity(nm, 'normalize leaves an identity value an identity (any x, y)', lf, list(Rs[2].c), [src])
+                ck.identity(nm, 'normalize leaves an identity value an identity (any x, y)', lf, list(Rs[2].c), [src], replay=dict(kind='group', op='toaffine', modes=m, case='independent'))
             else:
                 d = list((Rs[2] - 1).c) + list((Rs[0] * Zs * Zs - X).c) + list((Rs[1] * Zs * Zs * Zs - Y).c)
-                ck.identity(nm, 'normalize yields (X/Z^2, Y/Z^3, 1): same point, z = 1', lf, d, [src])
+                ck.identity(nm, 'normalize yields (X/Z^2, Y/Z^3, 1): same point, z = 1', lf, d, [src], replay=dict(kind='group', op='toaffine', modes=m, case='independent'))
 
 
 def run_parts(pid, parts, seed=0, thorough=False):
